@@ -133,8 +133,14 @@ func argShapes(r *rand.Rand, bps []string, addr string) [][]interface{} {
 var cmdNames = []string{"v1stake", "v1unstake", "v1voteBP", "v1voteDAO", "v1createName", "v1updateName", "v1setOwner",
 	"appendAdmin", "removeAdmin", "setConf", "appendConf", "removeConf", "enableConf", "disableConf", "changeCluster", "v1nosuch", "", "V1STAKE"}
 
-func rawPayloads() [][]byte {
-	deep := strings.Repeat("[", 2000) + strings.Repeat("]", 2000)
+// rawPayloads: depth = nesting of the "deeply nested" payload. Governance payloads are parsed by Go code only
+// (depth 2000). Payloads that may reach a contract as call arguments are capped at 12 levels: the host pushes
+// nested arguments onto the Lua stack one slot per level, which LuaJIT grows on every push while the PUC Lua
+// under the shim does not (20 free slots) - deeper nesting crashes the shim, not the code under test.
+func rawPayloads() [][]byte { return rawPayloadsDepth(2000) }
+
+func rawPayloadsDepth(depth int) [][]byte {
+	deep := strings.Repeat("[", depth) + strings.Repeat("]", depth)
 	return [][]byte{nil, {}, []byte("x"), []byte("{"), []byte(`{"Name":"v1stake"`), []byte(`{"Name":1}`), []byte(`{"Name":null,"Args":null}`), []byte(`[]`), []byte(`null`), []byte(`"v1stake"`),
 		[]byte(`{"Name":"v1voteBP","Args":` + deep + `}`), []byte(`{"Name":"v1stake","Args":{}}`), []byte(`{"Name":"v1createName","Args":"name12345678"}`),
 		[]byte(`{"name":"v1stake"}`), []byte("{\"Name\":\"v1stake\",\"Args\":[\"\xff\xfe\"]}"), []byte(`{"Name":"v1voteDAO","Args":[{"a":[1,{"b":null}]}]}`)}
@@ -284,7 +290,11 @@ func run(c *vf.Ctx, name string, public bool, ver int, part int) {
 			var pl []byte
 			switch r.Intn(5) {
 			case 0:
-				pl = rawPayloads()[r.Intn(len(rawPayloads()))]
+				if tt == types.TxType_GOVERNANCE {
+					pl = rawPayloads()[r.Intn(len(rawPayloads()))]
+				} else {
+					pl = rawPayloadsDepth(12)[r.Intn(len(rawPayloads()))]
+				}
 			case 1:
 				pl = []byte(`{"Name":"inc","Args":["k"]}`)
 			case 2:
